@@ -340,6 +340,13 @@ def run_case(spec, ctx):
                 glist = got if isinstance(got, list) else [got]
                 nres = rec0[1]["results"]
                 nres = len(nres) if isinstance(nres, list) else 1
+                if label == "none" and exp["multi"] and len(exp["items"]) > nres >= 1:
+                    # some elements of the list could not be stored (empty or unreadable when written): the component partly
+                    # failed, and "a component that failed is persisted with its errors"
+                    ctx.count("partly_stored_multi_output_specs")
+                    if not rec0[1].get("errors"):
+                        ctx.violation("partly-failed-component-persisted-without-errors", {"spec": k, "kind": s["kind"], "elements": len(exp["items"]),
+                                                                                           "stored": nres}, spec=case)
                 elist = [i for i in exp["items"] if i["content"] is not None and len(i["content"]) > 0]
                 if len(elist) != nres:
                     # an element whose host content was empty / unreadable at persist time: which elements were
